@@ -1,0 +1,38 @@
+//go:build verif
+
+package peering
+
+import (
+	"net"
+
+	"github.com/mycoria/mycoria/m"
+	"github.com/mycoria/mycoria/mgr"
+)
+
+// VerifSetupLink runs the real link setup on the given connection, wrapped
+// in the panic recovery that setup workers run under.
+// Verification hook: only compiled with the "verif" build tag.
+func (p *Peering) VerifSetupLink(conn net.Conn, peeringURL *m.PeeringURL, outgoing bool) (link Link, err error) {
+	var setupErr error
+	if err := p.mgr.Do("verif link setup", func(w *mgr.WorkerCtx) error {
+		var newLink *LinkBase
+		newLink, setupErr = newLinkBase(conn, peeringURL, outgoing, p).handleSetup(p.mgr)
+		if setupErr == nil {
+			link = newLink
+		}
+		return nil
+	}); err != nil {
+		return nil, err
+	}
+	return link, setupErr
+}
+
+// VerifLinkClosed returns a channel that is closed when the given link has
+// been fully closed. Returns nil if the link is not based on LinkBase.
+// Verification hook: only compiled with the "verif" build tag.
+func VerifLinkClosed(link Link) <-chan struct{} {
+	if lb, ok := link.(*LinkBase); ok {
+		return lb.closed
+	}
+	return nil
+}
